@@ -104,6 +104,31 @@ class Program:
             h.update(k.encode()); h.update(self.modules[k].src.encode())
         return h.hexdigest()[:16]
 
+    MUTATORS = {'append', 'update', 'pop', 'setdefault', 'clear', 'extend', 'insert', 'remove', 'add', 'discard', 'sort', 'reverse', 'popitem', '__setitem__', '__delitem__'}
+
+    def global_is_frozen(self, name):
+        """no statement anywhere in the package can mutate or rebind the module-level container `name`
+        (conservative, by bare name: subscript/attribute stores, augmented assignment, del, mutating method calls,
+        `global` declarations, or passing it to setattr/exec-style reflection)"""
+        if not hasattr(self, '_frozen'): self._frozen = {}
+        if name in self._frozen: return self._frozen[name]
+        ok = True
+        for m in self.modules.values():
+            for n in ast.walk(m.tree):
+                if isinstance(n, ast.Global) and name in n.names: ok = False
+                elif isinstance(n, (ast.Subscript, ast.Attribute)) and isinstance(n.ctx, (ast.Store, ast.Del)) and isinstance(n.value, ast.Name) and n.value.id == name: ok = False
+                elif isinstance(n, ast.AugAssign) and isinstance(n.target, ast.Name) and n.target.id == name: ok = False
+                elif isinstance(n, ast.Delete) and any(isinstance(t, ast.Name) and t.id == name for t in n.targets): ok = False
+                elif isinstance(n, ast.Call) and isinstance(n.func, ast.Attribute) and isinstance(n.func.value, ast.Name) and n.func.value.id == name and n.func.attr in self.MUTATORS: ok = False
+                elif isinstance(n, ast.FunctionDef):
+                    # a function that assigns the bare name locally shadows it (fine); nothing to do
+                    pass
+            # module-level re-binding more than once
+            cnt = sum(1 for n in m.tree.body if isinstance(n, (ast.Assign, ast.AnnAssign)) and any(isinstance(t, ast.Name) and t.id == name for t in (n.targets if isinstance(n, ast.Assign) else [n.target])))
+            if cnt > 1: ok = False
+        self._frozen[name] = ok
+        return ok
+
     def mutate(self, modname, old, new, count=1):
         """In-memory mutant: textual replacement in one module's source; returns a new Program or None if
         the pattern does not occur exactly `count` times (pattern no longer matches the code)."""
